@@ -52,3 +52,8 @@ impl StaticBuffer {
         self.len = len.to_le() | Self::TAG;
     }
 }
+
+#[cfg(feature = "verif-hooks")]
+pub(crate) fn verif_consts() -> [usize; 2] {
+    [StaticBuffer::MAX_LENGTH, StaticBuffer::TAG]
+}
